@@ -27,6 +27,10 @@ func drawC18(t *rapid.T, x *X) *Case {
 	// a sixth of the cases trace every call (the trace goes to the discarded standard output;
 	// whatever the tracing code shares between parsers is shared by all calls of the case)
 	debugCase := gspec.U(t, 6, "debugcase") == 0
+	if debugCase && n > 6 {
+		// (tracing under the race detector is slow: a traced case has few jobs)
+		n = 6
+	}
 	for i := 0; i < n; i++ {
 		j := Job{Entry: drawEntry(t, g, false)}
 		j.Opts.Debug = debugCase
@@ -154,7 +158,11 @@ func checkC18(x *X, c *Case, strict bool) *Outcome {
 	for i := range c.Jobs {
 		j := &c.Jobs[i]
 		jc := &Case{Entry: j.Entry, Input: j.Input, Opts: j.Opts, Plan: j.Plan}
-		ref := refpeg.Eval(g, j.Input, refOpts(jc))
+		// (the reference only bounds the work here: a small step budget - a case of up to 32 jobs
+		// whose reference runs each take seconds keeps one shard busy for minutes)
+		ro := refOpts(jc)
+		ro.StepBudget = 30000
+		ref := refpeg.Eval(g, j.Input, ro)
 		if ref.OverBudget {
 			return &Outcome{Discard: true}
 		}
